@@ -29,7 +29,7 @@ FD = _d.FieldDescriptor
 PROFILE = grammar.profile(
     p_http=0.93, p_get=0.9, p_list=0.7, p_create=0.8, p_update=0.8, p_delete=0.7, p_custom=0.9, p_multi_var_path=0.6,
     p_sstream=0.4, p_cstream=0.0, p_bidi=0.0, p_lro=0.0, p_service_config=0.7, p_yaml=0.05, p_routing=0.1,
-    transports=["rest", "grpc+rest"], p_numeric_enums=0.5, p_additional_binding=0.5, p_reserved_field=0.1)
+    transports=["rest", "grpc+rest"], p_numeric_enums=0.5, p_additional_binding=0.5, p_reserved_field=0.1, p_reserved_path_var=0.3)
 
 BUDGET = {
     "quick": {"worlds": 150, "runs": 80, "wall_cap": 300, "world_wall": 90},
@@ -665,3 +665,18 @@ def shape(scenario, history):
     urls = tuple(sorted((e.get("verb"), re.sub(r"[^/:?&=]+", "x", e.get("url", ""))) for e in att))
     return {"nontrivial": faults > 0 or len(att) >= 2, "key": (faults, len(att), urls), "interleaving": kinds,
             "faults": {"http_status": faults, "short_read_streams": sum(1 for e in att if e.get("stream"))}}
+
+
+RESERVED_SAMPLE = {"type", "format", "license", "object", "class", "from", "in", "import", "max", "next", "filter"}
+
+
+def signature(spec, scenario, rule):
+    if rule == "duplicated_field" and scenario is not None:
+        used = {(op["service"], op["method"]) for a in scenario["actors"] for op in a["ops"]}
+        for fs, s, m in grammar.all_methods(spec):
+            if (s["name"], m["name"]) in used and m.get("http"):
+                req = find_message(spec, m["input"]) or {"fields": []}
+                reqd = {f["name"] for f in req["fields"] if f.get("required")}
+                if any(v in RESERVED_SAMPLE and v in reqd for v in path_vars(m["http"]["path"])):
+                    return "required path variable named by a reserved word"
+    return rule
